@@ -20,6 +20,7 @@ type Term struct {
 	vid  int   // >=0: the only variable occurring is var #vid ; -1: none ; -2: several
 	vw   int   // width of that variable
 	size int32 // number of nodes (capped)
+	fp   bool  // contains floating-point operators (never evaluated concretely)
 }
 
 var tTrue = &Term{Op: "true", s: "true", vid: -1, size: 1}
@@ -75,6 +76,9 @@ func build(op string, w int, args ...*Term) *Term {
 		sb.WriteByte(' ')
 		sb.WriteString(a.s)
 		sz += a.size
+		if a.fp {
+			t.fp = true
+		}
 		switch {
 		case a.vid == -1:
 		case t.vid == -1:
@@ -90,7 +94,7 @@ func build(op string, w int, args ...*Term) *Term {
 }
 
 func buildIdx(op string, w int, p0, p1 int, np int, arg *Term) *Term {
-	t := &Term{Op: op, Args: []*Term{arg}, W: w, vid: arg.vid, vw: arg.vw, P: [2]int{p0, p1}, size: arg.size + 1}
+	t := &Term{Op: op, Args: []*Term{arg}, W: w, vid: arg.vid, vw: arg.vw, P: [2]int{p0, p1}, size: arg.size + 1, fp: arg.fp}
 	if np == 2 {
 		t.s = fmt.Sprintf("((_ %s %d %d) %s)", op, p0, p1, arg.s)
 	} else {
